@@ -14,7 +14,7 @@ CONSTANTS Bases,     \* subset of {"compInPlace", "compRecreate", "compRolling",
                      \* map it is sent; the hook fault hits the CUSTOMIZE call; compFinalize: the parent is
                      \* being deleted, the finalize hook drains the children and then the finalizer is removed; compRolling: the child kind
                      \* is updated RollingRecreate, so the sync goes through ControllerRevisions and per-revision hook calls)
-          Codes,     \* subset of {404, 409, 410, 422, 500, 0}      (0 = transport error / timeout)
+          Codes,     \* subset of {404, 409, 410, 422, 500, 504, 0} (504 = the API server's own Timeout status;     (0 = transport error / timeout)
           HookCodes, \* subset of {500, 429, 0, 404}
           Pairs      \* BOOLEAN: also enumerate pairs of faults
 
@@ -50,11 +50,11 @@ Benign(t, c) == \/ c = 404
 MustError(t, c) == ~Benign(t, c) /\ ~(c = 409 /\ t.verb = "get")
 \* ---- the code as written ------------------------------------------------------------------
 CodeErr(b, t, c) ==
-  CASE b = "compFinalize" -> \/ c \in {500, 0, 422}
+  CASE b = "compFinalize" -> \/ c \in {500, 0, 422, 504}
                              \/ (c = 409 /\ t.verb = "delete")                \* (a conflict on the finalizer write is retried on a fresh read)
                              \/ (c = 404 /\ t.kind = "Parent" /\ (t.verb = "update" \/ t.nth = 2))   \* the finalizer cannot be removed from a parent that is gone
                              \/ c = 410
-    [] c \in {500, 0, 422} -> TRUE
+    [] c \in {500, 0, 422, 504} -> TRUE
     [] c = 404 -> \/ (b # "decorator" /\ t.kind = "Parent" /\ t.verb \in {"get", "update"} /\ t.nth < 3)   \* finalizer sync / recheck cannot proceed
                   \/ (b = "decorator" /\ t.kind = "Parent" /\ (t.verb = "get" \/ (t.verb = "update" /\ t.nth = 1)))
                   \/ t.verb = "create"
